@@ -9,7 +9,7 @@ func init() {
 	}
 	properties["C02"] = &Property{
 		Title:      "sequences are well-formed and inside the window",
-		Rules:      []string{"R-WINGUARD", "R-MINLEN", "R-AUX", "R-LITPAIR", "R-OFFSET-BACK", "R-CMP-ALIGNED", "R-BLOCK-FRESH", "R-SEGCALL"},
+		Rules:      []string{"R-WINGUARD", "R-MINLEN", "R-AUX", "R-LITPAIR", "R-OFFSET-BACK", "R-CMP-ALIGNED", "R-BLOCK-FRESH", "R-SEGCALL", "R-INVALIDATE", "R-RESET-COVER"},
 		Decided:    "window guard 0<o≤WindowSize, lower bound of MatchLen, Aux zero, LitLen pairing at every emission site.",
 		NotDecided: "for OSAP, Offset ≤ bytes before the match rests on suffix-array entries being ≥ 0 (C09); decided for the six self-verifying parsers (R-OFFSET-BACK).",
 	}
@@ -31,26 +31,26 @@ func init() {
 	properties["C04"] = &Property{
 		Title:      "decoder expands valid streams under every interleaving",
 		Rules:      []string{"R-SHRINK-SAFE", "R-COMPACTORS", "R-CURSOR", "R-APPENDONLY", "R-REMAINDER", "R-OFFGUARD", "R-DEC-RESET", "R-COUNTS-AT-END", "R-REJECT-EXACT"},
-		Decided:    "compaction safety (δ ≤ R, δ ≤ len−WindowSize, R re-based), writer sets of R and Data, cursor discipline, append-only writes, remainder resubmission, match-copy source guards.",
+		Decided:    "compaction safety (δ ≤ R, δ ≤ len−WindowSize, R re-based), writer sets of R and Data, cursor discipline, append-only writes, remainder resubmission, match-copy source guards; a rejection is raised only for a malformed item (R-REJECT-EXACT: the conditions of every validity exit contradict the validity of the item, so literal-only sequences and boundary offsets pass).",
 		NotDecided: "the arithmetic of the doubling overlapped copy; functional equivalence with a reference expander.",
 	}
 	properties["C05"] = &Property{
 		Title:      "malformed sequences rejected atomically, no panic",
 		Rules:      []string{"R-VALIDATE-FIRST", "R-OFFGUARD", "R-BLK-READONLY", "R-COUNTS-AT-END", "R-SUM", "R-SHRINK-SAFE", "R-REJECT-EXACT", "R-DEC-INDEX", "R-STALELEN"},
-		Decided:    "no append precedes a rejection of the same sequence; the three rejections dominate the slices they protect; the caller's block arrays are never written; k/l computed at the merge of all exits.",
+		Decided:    "no append precedes a rejection of the same sequence; the three rejections dominate the slices they protect; the caller's block arrays are never written; k/l computed at the merge of all exits; a nil error leaves WriteMatch/WriteBlock only behind the final append (a rejection is always reported); element accesses Data[i] of DecoderBuffer methods are guarded (R-DEC-INDEX).",
 		NotDecided: "absence of implicit run-time panics in general (only the explicitly guarded sites are proved).",
 	}
 	properties["C06"] = &Property{
 		Title:       "every decoder call terminates",
 		Rules:       []string{"R-LOOPS-DECODER", "R-OFFGUARD", "R-SHRINK-SAFE", "R-DRAIN-COMPLETE", "R-REFUSE-EXACT", "R-COUNTS-AT-END", "R-ERR-SURFACE"},
-		Decided:     "every loop reachable from Decoder/DecoderBuffer methods matches a termination template (range, counting, doubling copy with off ≥ 1, retry with clamp or strict progress).",
+		Decided:     "every loop reachable from Decoder/DecoderBuffer methods matches a termination template (range, counting, doubling copy with off ≥ 1, retry with clamp or strict progress); the premises of the retry templates are obligations of their own: the drain is complete, the compaction discards all it may (δ exact), the buffer's writers refuse only what does not fit and only after an attempt to make room (R-REFUSE-EXACT), the counts they report are exact (R-COUNTS-AT-END), and the loop goes round again only after a successful step with something left to do or after a refusal followed by a drain without error.",
 		NotDecided:  "the arithmetic side conditions of the templates for all values (argued once in DESIGN.md, only matched here).",
 		Assumptions: []string{"the destination io.Writer returns"},
 	}
 	properties["C07"] = &Property{
 		Title:      "what the parsers emit, the Decoder accepts",
-		Rules:      []string{"R-CAPERR", "R-WINAGREE", "R-DEC-HEADROOM", "R-COUNTS-AT-END", "R-REMAINDER", "R-SHRINK-SAFE", "R-OFFPAIR", "R-LOOPS-DECODER", "R-STALECAP", "R-REFUSE-EXACT", "R-REJECT-EXACT", "R-SLOT-CAP"},
-		Decided:    "capacity-class errors (classified by their deciding guard) do not escape Decoder methods; the decoder's window rejection is exactly Offset > min(len, WindowSize).",
+		Rules:      []string{"R-CAPERR", "R-WINAGREE", "R-DEC-HEADROOM", "R-COUNTS-AT-END", "R-REMAINDER", "R-SHRINK-SAFE", "R-OFFPAIR", "R-LOOPS-DECODER", "R-STALECAP", "R-REFUSE-EXACT", "R-REJECT-EXACT", "R-SLOT-CAP", "R-DEFAULT-WINDOW"},
+		Decided:    "capacity-class errors (classified by their deciding guard) do not escape Decoder methods; the decoder's window rejection is exactly Offset > min(len, WindowSize); ErrFullBuffer and the \"MatchLen out of range\" of an unplaceable item are raised only outside the region of the known finding D10 (an item larger than the window that does not fit now): R-REFUSE-EXACT, R-REJECT-EXACT :only-oversize.",
 		NotDecided: "that after acceptance the bytes are the original ones (C01 ∧ C04).",
 	}
 	properties["C17"] = &Property{
@@ -71,7 +71,7 @@ func init() {
 	properties["C15"] = &Property{
 		Title:      "the parser buffer is a faithful, bounded sliding view",
 		Rules:      []string{"R-INDEXGUARD", "R-DEADERR", "R-WRITEBOUND", "R-READBOUND", "R-READFROM", "R-MARGIN", "R-SHRINK-PB", "R-SHRINK-WRAP", "R-RESET-COVER", "R-FAIL-ATOMIC", "R-RESET-INSTALL", "R-ACCESS-EXACT"},
-		Decided:    "index/slice guards of the accessors, reachability of the documented errors, byte bounds of Write/ReadFrom, 7-byte margin, Shrink arithmetic and its wrappers.",
+		Decided:    "index/slice guards of the accessors, reachability of the documented errors, byte bounds of Write/ReadFrom, 7-byte margin (also anchored at every lengthening store: growth-guarded), Shrink arithmetic and its wrappers; which offset gets which answer (R-ACCESS-EXACT), ErrFullBuffer of Write exactly when not everything fits (full-exact), Reset(data) refuses only an oversize slice, installs the caller's bytes and leaves the buffer untouched when it refuses (R-RESET-INSTALL, R-FAIL-ATOMIC).",
 		NotDecided: "that the byte at absolute offset x is the x-th byte fed (contents equality); behaviour under caller mutation of exported fields.",
 	}
 	properties["C08"] = &Property{
@@ -123,7 +123,7 @@ func init() {
 func init() {
 	properties["C12"] = &Property{
 		Title:       "GSAP always takes the longest available match",
-		Rules:       []string{"R-STRIDE", "R-GSAP-INSERT", "R-GSAP-BOTH", "R-GSAP-REBUILD", "R-GSAP-COVERED", "R-COPY-CLOBBER", "R-RESET-COVER", "R-GSAP-REWIND", "R-CMP-ALIGNED", "R-BITSET-PAIR", "R-GSAP-WINEXACT"},
+		Rules:       []string{"R-STRIDE", "R-GSAP-INSERT", "R-GSAP-BOTH", "R-GSAP-REBUILD", "R-GSAP-COVERED", "R-COPY-CLOBBER", "R-RESET-COVER", "R-GSAP-REWIND", "R-CMP-ALIGNED", "R-BITSET-PAIR", "R-GSAP-WINEXACT", "R-DEFAULT-WINDOW"},
 		Decided:     "the scan visits every uncovered position exactly once up to the block end; the current rank is inserted before both neighbour queries and every covered position is inserted; both neighbours are queried, measured against the block-clipped data and the larger length is emitted; the block is scanned only inside the current suffix array or after a rebuild that restores the whole window; the search set's storage is not clobbered when re-grown; Reset/Shrink drop the suffix arrays.",
 		NotDecided:  "that the two suffix-array neighbours give the longest previous match (needs a correct suffix array, C09) and the bit tricks inside bitset.memberBefore/memberAfter/insert.",
 		Assumptions: []string{"suffix.Sort yields the suffix array (C09)", "bitset queries return the nearest members (bit-level arithmetic not decided)"},
@@ -143,7 +143,7 @@ func init() {
 func init() {
 	properties["C19"] = &Property{
 		Title:       "matches are maximal; byte runs are compressed (structural clauses)",
-		Rules:       []string{"R-OFFSET-AGREE", "R-EXT-COVER", "R-PREFIX-STOP", "R-PREFIX-COVER", "R-PREFIX-BOUND", "R-PREFIX-ALIGN", "R-BACKEXT", "R-REINDEX", "R-CAND-MEASURED", "R-STRIDE", "R-GSAP-BOTH", "R-GSAP-WINFALLBACK", "R-CMP-ALIGNED"},
+		Rules:       []string{"R-OFFSET-AGREE", "R-EXT-COVER", "R-PREFIX-STOP", "R-PREFIX-COVER", "R-PREFIX-BOUND", "R-PREFIX-ALIGN", "R-BACKEXT", "R-REINDEX", "R-CAND-MEASURED", "R-STRIDE", "R-GSAP-BOTH", "R-GSAP-WINFALLBACK", "R-CMP-ALIGNED", "R-DEFAULT-WINDOW"},
 		Decided:     "for every non-optimizing parser: each comparison feeding MatchLen is between x and x−Offset and starts where the verified part ends; every path to an emission ends with a mismatch witness or at the block end (extension loops keep k + len(q) = len(p) − i, tail compared only with ≤ 7 bytes left); the backward extension covers min(pending literals, source position) bytes exactly when literals are pending; the scanned position and every position covered by a match are indexed; a table candidate with equal hash input inside the window is always measured.",
 		NotDecided:  "the run clause as a count of literals per block (depends on hash values and table contents at run time); maximality as a fact about bytes rests on the trusted semantics of the word loaders and of lcp/lcs.",
 		Assumptions: []string{"_getLE64/getLE64 load the little-endian word at the start of their argument; lcp/lcs return exact common prefix/suffix lengths"},
